@@ -19,6 +19,10 @@ const modPath = "github.com/dlclark/regexp2/v2"
 var repoDir = envOr("VERIF_REPO", "/repo")
 var verifDir = envOr("VERIF_DIR", "/verif")
 
+// outDir receives evidence/ and replays/; GOSYM_OUT redirects them when a check is run against a
+// scratch tree (seeded changes), so that the committed evidence is only ever written from /repo itself.
+var outDir = envOr("GOSYM_OUT", verifDir)
+
 func envOr(k, d string) string {
 	if v := os.Getenv(k); v != "" {
 		return v
